@@ -2054,13 +2054,13 @@ class subarray : public const_subarray<T, D, ElementPtr, Layout> {
 
 	constexpr auto operator=(const_subarray<T, D, ElementPtr, Layout> const& other) & -> subarray& {
 		if(this == std::addressof(other)) { return *this; }
-		BOOST_MULTI_ASSERT(this->extension() == other.extension());
+		BOOST_MULTI_ASSERT((this->extensions() == other.extensions()) || (this->num_elements() == 0 && other.num_elements() == 0));
 		this->elements() = other.elements();
 		return *this;
 	}
 
 	constexpr void swap(subarray&& other) && noexcept {
-		BOOST_MULTI_ASSERT(this->extension() == other.extension());
+		BOOST_MULTI_ASSERT((this->extensions() == other.extensions()) || (this->num_elements() == 0 && other.num_elements() == 0));
 		adl_swap_ranges(this->elements().begin(), this->elements().end(), std::move(other).elements().begin());
 	}
 	friend constexpr void swap(subarray&& self, subarray&& other) noexcept { std::move(self).swap(std::move(other)); }
@@ -2091,7 +2091,7 @@ class subarray : public const_subarray<T, D, ElementPtr, Layout> {
 	// fix mutation
 	template<class TT, class... As> constexpr auto operator=(const_subarray<TT, D, As...>     && other) && -> subarray& {operator=(std::move(other)); return *this;}
 	template<class TT, class... As> constexpr auto operator=(const_subarray<TT, D, As...>     && other)  & -> subarray& {
-		BOOST_MULTI_ASSERT(this->extensions() == other.extensions());
+		BOOST_MULTI_ASSERT((this->extensions() == other.extensions()) || (this->num_elements() == 0 && other.num_elements() == 0));
 		this->elements() = std::move(other).elements();
 		return *this;
 	}
@@ -2132,7 +2132,7 @@ class subarray : public const_subarray<T, D, ElementPtr, Layout> {
 	template<class TT, class... As>
 	constexpr
 	auto operator=(const_subarray<TT, D, As...> const& other) && -> subarray& {
-		BOOST_MULTI_ASSERT(this->extension() == other.extension());  // NOLINT(cppcoreguidelines-pro-bounds-array-to-pointer-decay,hicpp-no-array-decay) : normal in a constexpr function
+		BOOST_MULTI_ASSERT((this->extensions() == other.extensions()) || (this->num_elements() == 0 && other.num_elements() == 0));  // NOLINT(cppcoreguidelines-pro-bounds-array-to-pointer-decay,hicpp-no-array-decay) : normal in a constexpr function
 		this->elements() = other.elements();
 		return *this;
 	}
@@ -2140,7 +2140,7 @@ class subarray : public const_subarray<T, D, ElementPtr, Layout> {
 	template<class TT, class... As>
 	constexpr
 	auto operator=(subarray<TT, D, As...>&& other) & -> subarray& {
-		BOOST_MULTI_ASSERT(this->extension() == other.extension());  // NOLINT(cppcoreguidelines-pro-bounds-array-to-pointer-decay,hicpp-no-array-decay) : normal in a constexpr function
+		BOOST_MULTI_ASSERT((this->extensions() == other.extensions()) || (this->num_elements() == 0 && other.num_elements() == 0));  // NOLINT(cppcoreguidelines-pro-bounds-array-to-pointer-decay,hicpp-no-array-decay) : normal in a constexpr function
 		this->elements() = std::move(other).elements();
 		return *this;
 	}
@@ -2162,13 +2162,13 @@ class subarray : public const_subarray<T, D, ElementPtr, Layout> {
 
 	constexpr auto operator=(subarray const& other) & -> subarray& {
 		if(this == std::addressof(other)) { return *this; }
-		BOOST_MULTI_ASSERT(this->extension() == other.extension());
+		BOOST_MULTI_ASSERT((this->extensions() == other.extensions()) || (this->num_elements() == 0 && other.num_elements() == 0));
 		this->elements() = other.elements();
 		return *this;
 	}
 	constexpr auto operator=(subarray&& other) & noexcept(std::is_nothrow_copy_assignable_v<T>) -> subarray& {
 		// if(this == std::addressof(other)) { return *this; }
-		BOOST_MULTI_ASSERT(this->extension() == other.extension());
+		BOOST_MULTI_ASSERT((this->extensions() == other.extensions()) || (this->num_elements() == 0 && other.num_elements() == 0));
 		this->elements() = std::move(other).elements();
 		return *this;
 	}
@@ -3402,7 +3402,7 @@ class array_ref : public subarray<T, D, ElementPtr, Layout>
 
 	template<class TT, class... As, std::enable_if_t<! std::is_base_of_v<array_ref, array_ref<TT, D, As...>> ,int> =0>  // NOLINT(modernize-use-constraints)  TODO(correaa) for C++20
 	constexpr auto operator=(array_ref<TT, D, As...> const& other) && -> array_ref& {
-		BOOST_MULTI_ASSERT(this->extensions() == other.extensions());
+		BOOST_MULTI_ASSERT((this->extensions() == other.extensions()) || (this->num_elements() == 0 && other.num_elements() == 0));
 		array_ref::copy_elements_(other.data_elements());
 		return *this;
 	}
